@@ -152,6 +152,9 @@ class Ctx:
         known = self.findings.known.get(self.pid, {})
         if mech is not None and mech in known:
             self.known_hits[mech] += 1
+            if os.environ.get("VERIF_DUMP_KNOWN"):     # debugging aid: every observation attributed to a known finding
+                with open(os.environ["VERIF_DUMP_KNOWN"], "a", encoding="utf-8") as f:
+                    f.write(jdump({"mechanism": mech, "what": what, "witness": witness}).replace("\n", " ") + "\n")
             if self.known_hits[mech] <= 3:
                 self.extra.setdefault("known_finding_witnesses", {}).setdefault(mech, []).append(_short(what))
             return False
